@@ -303,6 +303,9 @@ func (c *Check) Finish() {
 	c.mu.Unlock()
 	b, _ := json.MarshalIndent(ev, "", " ")
 	dir := filepath.Join(Root(), "evidence")
+	if d := os.Getenv("VERIF_EVIDENCE_DIR"); d != "" {
+		dir = d // runs against scratch copies (seeded changes) must not overwrite the real evidence
+	}
 	_ = os.MkdirAll(dir, 0o755)
 	if err := os.WriteFile(filepath.Join(dir, c.ID+".json"), append(b, '\n'), 0o644); err != nil {
 		c.Internal("cannot write evidence: %v", err)
